@@ -24,7 +24,8 @@ EXPLANATION = (
     "constants of the double format: the bias the decoder subtracts and the bias the encoder adds are both 1023, the "
     "exponent width both sides use is 11, the significand width 52, and 1 + 11 + 52 is the 64 bits the byte table covers; "
     "(R6) PEEK and POKE on an INTEGER take byte `address` - the parameter itself - of the array the word encoder makes of "
-    "the payload, and POKE stores the word decoder's result of the changed bytes back.")
+    "the payload, and POKE stores the word decoder's result of the changed bytes back; (R7) the encoder of doubles compares "
+    "the value with the constants of its algorithm only (0, 0.5, 1, 2): no epsilon or tolerance decides what is encoded as zero.")
 NOT_DECIDED = [
     "that the encoder's halving / doubling and the decoder's summing of powers of two agree for every finite double "
     "(subnormals, rounding of the 53rd bit): arithmetic over bit patterns, solver territory",
@@ -185,6 +186,8 @@ def r2_not(ctx, rule="C19.R2"):
     sw = max(sws, key=lambda s: len(s.arms))
     for v in ("VInteger", "VLong"):
         key = "%s:%s" % (rule, v)
+        via_negate = [t for _b, t in body.calls() if mir.callee_path(t).endswith("Variant::negate")
+                      or mir.callee_path(t).endswith("Variant::minus") or mir.callee_path(t).endswith("Variant::plus")]
         if v not in sw.arms:
             ctx.violation(rule, key, f.loc, "unary_not has no arm of its own for %s" % v)
             continue
@@ -195,7 +198,15 @@ def r2_not(ctx, rule="C19.R2"):
             if r.get("a") == "adt" and (r.get("adt") or "").endswith("::Variant") and r.get("variant") == v and r["ops"]:
                 forms.append(_lin_payload(pv.of_operand(r["ops"][0]), v))
         if len(forms) != 1 or forms[0] is None:
-            ctx.unknown(rule, key, f.loc, "the result of NOT on %s is not a linear expression of the payload" % v)
+            if via_negate:
+                ctx.violation(rule, key, f.loc,
+                              "NOT on %s is computed through %s of Variant: these check the range of their own result, and the "
+                              "negation of the sign-bit-only word (%s) is not representable, so NOT of it raises Overflow instead "
+                              "of giving %s - the complement is -n - 1 computed directly, which always fits"
+                              % (v, " / ".join(sorted({mir.callee_path(t).split("::")[-1] for t in via_negate})),
+                                 "-32768" if v == "VInteger" else "-2147483648", "32767" if v == "VInteger" else "2147483647"))
+            else:
+                ctx.unknown(rule, key, f.loc, "the result of NOT on %s is not a linear expression of the payload" % v)
             continue
         ctx.decide(forms[0] == {"n": -1, "1": -1}, rule, key, f.loc, "NOT n = -n - 1",
                    "NOT on %s computes %s: the bitwise complement of a two's-complement word is -n - 1" % (
@@ -516,6 +527,50 @@ def r6_peek_poke_use_the_word_codec(ctx, rule="C19.R6"):
     ctx.require(rule, 4, max_unknown=2)
 
 
+def r7_no_tolerance_in_the_encoder(ctx, rule="C19.R7"):
+    """MKD$ encodes every finite double exactly.  The encoder's halving / doubling compares the value with the constants
+    that belong to the algorithm only - 0, 0.5, 1, 2 (is it negative, does the next fraction bit carry, is it
+    normalised): a comparison with any other constant (an epsilon, a tolerance, a `small enough` threshold) makes a
+    whole range of non-zero values encode as something else."""
+    prog = ctx.prog
+    fns = [f for f in prog.fns.values() if f.crate == "rusty_variant" and "::bits::" in f.path and f.kind != "const"
+           and (prog.enclosing_fn(f) or f).name.startswith("f64_")]
+    if not fns:
+        raise CheckError("%s: the encoder functions of rusty_variant::bits were not found" % rule)
+    allowed = {0.0, 0.5, 1.0, 2.0}
+    n = 0
+    for f in sorted(fns, key=lambda x: x.id):
+        for blk in f.body.blocks:
+            if blk.get("c"):
+                continue
+            for st in blk["s"]:
+                if st["k"] != "assign" or st["r"]["k"] != "bin" or st["r"]["op"] not in ("Lt", "Le", "Gt", "Ge", "Eq", "Ne"):
+                    continue
+                if any("assert" in m for m in (st.get("mx") or [])):
+                    continue
+                for side in ("a", "b"):
+                    k = st["r"][side].get("k") if isinstance(st["r"][side], dict) else None
+                    if not k or k.get("ty") != "f64":
+                        continue
+                    n += 1
+                    txt = str(k.get("s"))
+                    val = None
+                    m = re.fullmatch(r"(-?[0-9.]+(?:[eE][-+]?\d+)?)f64", txt)
+                    if m and not k.get("const_def"):
+                        try:
+                            val = float(m.group(1))
+                        except ValueError:
+                            val = None
+                    owner = (prog.enclosing_fn(f) or f).name
+                    ctx.decide(val in allowed, rule, "%s:%s:%s" % (rule, owner, txt), "%s:%s" % (f.file, st.get("ln")),
+                               "compares with %s" % txt,
+                               "the encoder of doubles (%s) compares the value with %s: magnitudes on one side of that threshold are "
+                               "not encoded by the algorithm (non-zero values below an epsilon become eight zero bytes, CVD(MKD$(x)) = 0)"
+                               % (owner, k.get("const_def") or txt))
+    ctx.analysed_units(rule, comparisons_with_float_constants=n)
+    ctx.require(rule, 3)
+
+
 def run(ctx):
     common.install(ctx)
     r1_elementwise(ctx)
@@ -524,3 +579,4 @@ def run(ctx):
     r4_reader_walk(ctx, makers)
     r5_layout_constants(ctx, widths)
     r6_peek_poke_use_the_word_codec(ctx)
+    r7_no_tolerance_in_the_encoder(ctx)
